@@ -383,7 +383,7 @@ var gcsPrograms = []string{
 // binary operators, calls on any callee, parentheses, maps, function literals), with a random
 // layout.  Used by the parse component so that operator/call grouping is compared tree-for-tree.
 func genExpr(r *rand.Rand, d int) string {
-	sp := func() string { return pick(r, "", " ", " ", "  ", "\n", " # c\n", "\t") }
+	sp := func() string { return pick(r, "", " ", " ", "  ", "\n", " # c\n", "\t", "#\n", " //\n", "// \n", "#\r\n") }
 	if d <= 0 || r.Intn(4) == 0 {
 		return pick(r, "x", "y1", "f", "foo-bar", "1", "23", "4.5", ".5", "-7", "3.", "\"s\"", "true", "false", "null", "a%")
 	}
@@ -487,7 +487,8 @@ func (g gcsComp) Gen(r *rand.Rand, tier string, n int) []*wire.Case {
 	add("d-numbers", "1", "-1", ".5", "-.5", "1.", "1.5.2", "- 1", "1-1", "a-1", "a -1", "a - 1", "3 .", ".", "-", "--1")
 	add("d-strings", "\"a\"", "\"a", "\"a\\", "\"a\\\n\"", "\"a\nb\"", "\"\\\"\"", "\"é日本\"")
 	add("d-brackets", ")", "]", "}", "(", "((((", "()", "[]]", "{}}", "(]")
-	add("d-comments", "# only", "// only", "x; # c\ny;", "x // c", "/", "/ /", "#\n#\n")
+	add("d-comments", "# only", "// only", "x; # c\ny;", "x // c", "/", "/ /", "#\n#\n", "x; #\ny;", "//\nlet y = 1;", "let x = 1;\n//\nlet y = x + 2;\nf(x, y);\n", "if x { //\n y = 1; }", "let z = 1 + #\n 2;",
+		"#\n", "//", "x;//", "x;#", "# a\n//\n# b\nx;", "f(a, //\n b);", "[1, #\n 2];")
 	add("d-invalid-utf8", "\xff", "a\xffb", "\xc3", "\xe2\x82", "let \xff = 1;", "\"\xff\"")
 	add("d-idents", "foo", "foo-bar", "foo%", "_x", "été", "日本語", "x$", "x@y", "let", "letx", "true1", "null;", "a.b", "a|b", "a&b")
 	add("d-unary-call", "!f(x);", "let y = - g(1, 2);", "a && !done(t);", "!f(x)(y);", "-f(x) * 2;", "!(f)(x);", "! !f(x);", "- -x(1);", "f(x)(y)(z);", "(a + b)(c);", "fn(a){ return a; }(1);", "[1](2);")
@@ -503,7 +504,7 @@ func (g gcsComp) Gen(r *rand.Rand, tier string, n int) []*wire.Case {
 	for i, p := range gcsPrograms {
 		add(fmt.Sprintf("d-prog-%d", i), p)
 		// every layout keeps the tree: extra whitespace and comments between tokens
-		add(fmt.Sprintf("d-prog-%d-layout", i), strings.ReplaceAll(p, " ", "  \n\t "), strings.ReplaceAll(p, ";", " ; # c\n"), strings.ReplaceAll(p, "{", "{ // open\n"))
+		add(fmt.Sprintf("d-prog-%d-layout", i), strings.ReplaceAll(p, " ", "  \n\t "), strings.ReplaceAll(p, ";", " ; # c\n"), strings.ReplaceAll(p, "{", "{ // open\n"), strings.ReplaceAll(p, ";", ";#\n"), strings.ReplaceAll(p, "{", "{//\n"))
 	}
 	// big inputs: linear time and no leak
 	big := strings.Repeat(gcsPrograms[0]+gcsPrograms[1], 64*1024/(len(gcsPrograms[0])+len(gcsPrograms[1])))
